@@ -106,7 +106,18 @@ func runSchedule(c *schedCase, w *bufio.Writer) {
 		}
 		sch.Step(label)
 	}
-	rest.VerifStep = hook
+	// the inner yield points (A: before a mutex acquisition / timer-manager call, R: after a release; anchors.json
+	// "acquisitions") lie inside the model's steps: transparent here, they park in the window runs (window_on_test.go)
+	rest.VerifStep = func(label string, args ...string) {
+		if strings.HasPrefix(label, "A:") || strings.HasPrefix(label, "R:") {
+			return
+		}
+		id := ""
+		if len(args) > 0 {
+			id = args[0]
+		}
+		hook(label, id)
+	}
 	timermap.VerifStep = hook
 	defer func() { rest.VerifStep, timermap.VerifStep = nil, nil }()
 	fmt.Fprintf(w, "S %s\n", c.id)
